@@ -24,6 +24,7 @@ func init() {
 			a.sexpDiscipline("S.sexp")
 			a.randomDiscipline("E.random")
 			a.akeStateInvariant("T.ake-state")
+			a.c13RandAtomic("A.rand-atomic")
 			a.smpStateCommittedLast("S.smp-commit-last")
 			a.c16Whitespace() // the tag scan consumes one group per iteration (no iteration without progress)
 			a.retireImpliesMove()
